@@ -68,14 +68,20 @@ def deep_terms(W, body, t):
                     st.extend(a for i_, a in enumerate(pv.arg_terms(bb)) if i_ != ai)
 
 
-def c17(rep, W, rule="C17", sections=None):
+ARG_TRANSPORTS = {"unwrap", "expect", "collect", "copied", "cloned", "clone", "into_iter", "iter", "map", "into", "from", "to_owned", "as_ref", "deref",
+                  "to_os_string", "to_path_buf", "unwrap_unchecked",
+                  # building the collection by hand: `let mut s = HashSet::new(); for id in ids { s.insert(*id); }`
+                  "new", "default", "with_capacity", "insert", "push", "extend", "next"}
+
+
+def c17(rep, W, rule="C17", sections=None, keyfilter=None):
     """sections: None = everything; or a set of rule suffixes ({".LIST", ".ARGS"}) for properties that rely on part of the wiring."""
     if sections is not None:
         class _Filter:
             def __init__(self, rep_):
                 self._r = rep_
             def ob(self, rl, *a, **k):
-                if any(rl.endswith(x) or rl.endswith(x + ".FLOOR") for x in sections):
+                if any(rl.endswith(x) or rl.endswith(x + ".FLOOR") for x in sections) and (keyfilter is None or keyfilter(rl, a[0] if a else ())):
                     return self._r.ob(rl, *a, **k)
                 return True
             def fail(self, rl, key, detail, where=None, sample=None):
@@ -243,6 +249,11 @@ def c17(rep, W, rule="C17", sections=None):
                             ("get_one", "get_many", "remove_one", "remove_many", "get_raw", "get_occurrences", "get_flag", "get_count", "try_get_one", "try_get_many")))
             same = {"get_one": ("get_one", "remove_one"), "get_many": ("get_many", "remove_many")}[getter]
             okf = len(gets) == 1 and gets[0][1].split("::")[-1] in same and H.const_str(gets[0][3][1]) == aid
+            # .. and reaches the field as parsed: between the getter and the field only unwrapping / copying / collecting
+            other = sorted(set(x[1] for x in deep_terms(W, ab, t) if x[0] == "call" and not x[1].startswith(AM)
+                               and x[1].split("::")[-1] not in ARG_TRANSPORTS))
+            rep.ob(rule + ".ARGS", ("ServerArgs::new", fname, "value-unchanged"), not other,
+                   "ServerArgs.%s is the parsed value itself; transformations applied on the way: %s" % (fname, [o.split("::")[-2:] for o in other] or "none"), where(ab), nontrivial=False)
             rep.ob(rule + ".ARGS", ("ServerArgs::new", fname), okf,
                    "ServerArgs.%s is read from %s; must be %s(\"%s\")" % (fname, [(x[1].split("::")[-1], H.const_str(x[3][1])) for x in gets], getter, aid), where(ab))
         al = fl.get("client_id_allowlist", ("unknown",))
